@@ -54,7 +54,7 @@ pub fn run(tier: Tier) -> i32 {
             }
         }
     }
-    par_for(jobs.len(), 1, |j| {
+    rep.par_for(jobs.len(), 1, "C16 part 1", |j| {
         let (vi, others, oi, ui) = &jobs[j];
         let v = &voices[*vi];
         let other = &others[*oi];
@@ -129,7 +129,7 @@ pub fn run(tier: Tier) -> i32 {
     let stepped = AtomicU64::new(0);
     {
         let step_jobs: Vec<(usize, usize, usize)> = (0..voices.len()).flat_map(|vi| (0..utts.len().min(2)).flat_map(move |ui| [1usize, 2, 3].into_iter().map(move |mult| (vi, ui, mult)))).collect();
-        par_for(step_jobs.len(), 1, |j| {
+        rep.par_for(step_jobs.len(), 1, "C16 part 2", |j| {
             let (vi, ui, mult) = step_jobs[j];
             let v = &voices[vi];
             if v.3 && ui > 0 {
